@@ -348,6 +348,26 @@ func (C06) Execute(sc *core.Scenario, keepLog bool) *core.Result {
 				if e.Infra != nil {
 					return
 				}
+				// a batch may restate a message the server already has, next to the new ones
+				// (a sync that overlaps the previous one): the known one stays as it is
+				if a.Arg(6)%3 == 0 && n > 0 && n < 10 {
+					if m0 := pick(a.Arg(7)); m0 != nil {
+						var ids0 []imap.MailboxID
+						deleted0 := false
+						for _, b := range st.boxesOf(m0.obj) {
+							ids0 = append(ids0, imap.MailboxID(b.Remote))
+							deleted0 = deleted0 || b.Members[b.Index(m0.obj)].Deleted
+						}
+						if len(ids0) > 0 && !deleted0 {
+							parsed0, _ := imap.NewParsedMessage(m0.lit)
+							restated := &imap.MessageCreated{Message: imap.Message{ID: m0.id, Flags: flagSetOf(m0.obj), Date: world.SimStart}, Literal: m0.lit, MailboxIDs: ids0, ParsedMessage: parsed0}
+							pos := abs(a.Arg(7)) % (len(batch) + 1)
+							batch = append(batch[:pos], append([]*imap.MessageCreated{restated}, batch[pos:]...)...)
+							ms = append(ms[:pos], append([]*c06Msg{nil}, ms[pos:]...)...)
+							e.St.Probes["batch_restating_known_message"]++
+						}
+					}
+				}
 				// with IgnoreUnknownMailboxIDs the remote may name mailboxes gluon does not know
 				// (yet): they are skipped, everything else is applied
 				ignoreUnknown := a.Arg(4)%3 == 0
@@ -370,6 +390,9 @@ func (C06) Execute(sc *core.Scenario, keepLog bool) *core.Result {
 					return
 				}
 				for j, m := range ms {
+					if m == nil {
+						continue // the restated message: nothing changes
+					}
 					st.msgs = append(st.msgs, m)
 					for _, b := range st.boxes {
 						for _, id := range batch[j].MailboxIDs {
